@@ -126,6 +126,20 @@ theorem buffer_reset (fixed : Bool) (s : St) :
       obtain ⟨rfl, _⟩ := hopen
       exact ⟨rfl, rfl⟩
 
+/-- A failed statement keeps the state: while a cassette file is open, every further request to the tape —
+    open for output of any type (OPEN FOR OUTPUT/APPEND, SAVE, SAVE ,A, SAVE ,P, BSAVE) or for input (OPEN FOR
+    INPUT, LOAD, MERGE, BLOAD) — is refused with File already open and returns the stream state UNCHANGED
+    (file type, last header numbers, buffer, mode, tape position), so the I/O on the open file goes on as if the
+    statement had never been issued and all round-trip theorems still apply to it. -/
+theorem refused_keeps_state (s : St) (h : s.isOpen = true) :
+    (∀ name ft seg offs len, openWrite s name ft seg offs len = .error Gen.E.file_already_open) ∧
+    (∀ skip rel req types, openInput skip rel s req types = ([], s, .error Gen.E.file_already_open)) ∧
+    (∀ fixed f, writeFile fixed s f = .error Gen.E.file_already_open) := by
+  refine ⟨?_, ?_, ?_⟩
+  · intro name ft seg offs len; simp [openWrite, h]
+  · intro skip rel req types; simp [openInput, h]
+  · intro fixed f; simp [writeFile, openWrite, h]
+
 /-- no_mixing, stated as independence: the bytes delivered for `f` are the same whatever other files
     precede it (and are skipped) and whatever follows it. -/
 theorem no_mixing (req types : Bytes) (pre pre' : List TFile) (f : TFile) (post post' : Tape) (s s' : St)
